@@ -574,7 +574,20 @@ func (lb *ListenerBuilder) buildSidecarOutboundListeners(node *model.Proxy,
 
 func finalizeOutboundListeners(lb *ListenerBuilder, listenerMap map[listenerKey]*outboundListenerEntry) []*listener.Listener {
 	listeners := make([]*listener.Listener, 0, len(listenerMap))
-	for _, le := range listenerMap {
+	// Emit the listeners in a fixed order (bind address, then port) rather than in map iteration order, so
+	// that two generations from the same state give the same response.
+	keys := make([]listenerKey, 0, len(listenerMap))
+	for k := range listenerMap {
+		keys = append(keys, k)
+	}
+	sort.Slice(keys, func(i, j int) bool {
+		if keys[i].bind != keys[j].bind {
+			return keys[i].bind < keys[j].bind
+		}
+		return keys[i].port < keys[j].port
+	})
+	for _, k := range keys {
+		le := listenerMap[k]
 		// TODO: this could be outside the loop, but we would get object sharing in EnvoyFilter patches.
 		fallthroughNetworkFilters := buildOutboundCatchAllNetworkFiltersOnly(lb.push, lb.node)
 		l := buildListenerFromEntry(lb, le, fallthroughNetworkFilters)
